@@ -1,5 +1,6 @@
-(* C32: ConcurrentVector refines std::vector (contents, sizes, returned positions) for every operation sequence;
-   element lifetimes are balanced on the complement of the modelled defects; refutation witnesses. *)
+(* C32: ConcurrentVector refines std::vector (contents, sizes, returned positions) for every operation sequence and
+   element lifetimes are balanced (after the repairs 6742701 / c8c0b30 of erase and single-element insert; the former
+   refutation witnesses are regression examples). *)
 From Coq Require Import ZArith List Bool Lia ZifyBool.
 From DV Require Import Base.MachInt Base.Life Model.CVecModel Proofs.CVecBucketProofs Proofs.CVecStoreProofs Proofs.CVecAllocProofs
   Proofs.CVecLoopProofs Proofs.CVecOpsProofs.
@@ -24,11 +25,11 @@ Lemma spec_swap a b o :
 Proof. destruct o; try (destruct c); reflexivity. Qed.
 
 (* what one step must establish *)
-Definition post (tr : traits) (max_n : Z) (w w' : world) (ret : Z) (s' : list Z * list Z) (sret : Z) (shifts ins : bool) : Prop :=
+Definition post (tr : traits) (max_n : Z) (w w' : world) (ret : Z) (s' : list Z * list Z) (sret : Z) : Prop :=
   vinv tr (wa w') /\ vinv tr (wb w') /\ (abs (wa w'), abs (wb w')) = s' /\ cl_bad (wl w') = cl_bad (wl w) /\
   v_size (wa w') <= max_n /\ v_size (wb w') <= max_n /\
-  (shifts = false -> ret = sret) /\
-  (clean (wa w) -> clean (wb w) -> shifts = false -> ins = false ->
+  ret = sret /\
+  (clean (wa w) -> clean (wb w) ->
    clean (wa w') /\ clean (wb w') /\
    lnet (wl w) (wl w') (v_size (wa w') + v_size (wb w') - v_size (wa w) - v_size (wb w))).
 
@@ -36,27 +37,27 @@ Definition step_post (tr : traits) (max_n : Z) (w : world) (sel : bool) (o : op)
   let r := step tr w sel o in
   let s := (abs (wa w), abs (wb w)) in
   let sr := spec_step s sel o in
-  post tr max_n w (fst r) (snd r) (fst sr) (snd sr) (op_erase_shifts (if sel then snd s else fst s) o) (op_insert_single o).
+  post tr max_n w (fst r) (snd r) (fst sr) (snd sr).
 
 (* operations on self alone *)
-Lemma post_single tr max_n w v' L' ret l' sret shifts ins :
+Lemma post_single tr max_n w v' L' ret l' sret :
   vinv tr (wb w) -> v_size (wb w) <= max_n ->
-  vinv tr v' -> abs v' = l' -> cl_bad L' = cl_bad (wl w) -> v_size v' <= max_n -> (shifts = false -> ret = sret) ->
-  (shifts = false -> ins = false -> life_ok (wa w) (wl w) v' L') ->
-  post tr max_n w (mkW v' (wb w) L') ret (l', abs (wb w)) sret shifts ins.
+  vinv tr v' -> abs v' = l' -> cl_bad L' = cl_bad (wl w) -> v_size v' <= max_n -> ret = sret ->
+  life_ok (wa w) (wl w) v' L' ->
+  post tr max_n w (mkW v' (wb w) L') ret (l', abs (wb w)) sret.
 Proof.
   intros Ib Sb I A B S R LO. unfold post. cbn [wa wb wl].
   split; [exact I|]. split; [exact Ib|]. split; [rewrite A; reflexivity|]. split; [exact B|]. split; [exact S|]. split; [exact Sb|].
-  split; [exact R|]. intros Ca Cb Hs Hi. destruct (life_ok_lnet _ _ _ _ (LO Hs Hi) Ca) as (C' & LN).
+  split; [exact R|]. intros Ca Cb. destruct (life_ok_lnet _ _ _ _ LO Ca) as (C' & LN).
   split; [exact C'|]. split; [exact Cb|]. replace (v_size v' + v_size (wb w) - v_size (wa w) - v_size (wb w)) with (v_size v' - v_size (wa w)) by lia. exact LN.
 Qed.
 
-Lemma post_same tr max_n w ret shifts ins : vinv tr (wa w) -> vinv tr (wb w) -> v_size (wa w) <= max_n -> v_size (wb w) <= max_n ->
-  post tr max_n w w ret (abs (wa w), abs (wb w)) ret shifts ins.
+Lemma post_same tr max_n w ret : vinv tr (wa w) -> vinv tr (wb w) -> v_size (wa w) <= max_n -> v_size (wb w) <= max_n ->
+  post tr max_n w w ret (abs (wa w), abs (wb w)) ret.
 Proof.
   intros Ia Ib Sa Sb. unfold post.
   split; [exact Ia|]. split; [exact Ib|]. split; [reflexivity|]. split; [reflexivity|]. split; [exact Sa|]. split; [exact Sb|].
-  split; [reflexivity|]. intros Ca Cb _ _. split; [exact Ca|]. split; [exact Cb|].
+  split; [reflexivity|]. intros Ca Cb. split; [exact Ca|]. split; [exact Cb|].
   replace (v_size (wa w) + v_size (wb w) - v_size (wa w) - v_size (wb w)) with 0 by lia. apply lnet_refl.
 Qed.
 
@@ -86,7 +87,7 @@ Proof.
   pose proof (vi_size _ _ Ia) as Sza. pose proof (vi_size _ _ Ib) as Szb.
   pose proof (zlen_abs _ Sza) as La. pose proof (zlen_abs _ Szb) as Lb.
   unfold op_pre in Pre. rewrite ?La, ?Lb in Pre.
-  destruct o; unfold step, w_self, w_other, w_put; cbn [spec_step fst snd op_erase_shifts op_insert_single].
+  destruct o; unfold step, w_self, w_other, w_put; cbn [spec_step fst snd].
   - (* push / emplace *)
     pose proof (emplace_back_spec tr max_n k t (wa w) (wl w) F Ia ltac:(lia)) as H. cbv zeta in H.
     destruct (emplace_back tr k t (wa w, wl w)) as [[v' L'] ret]. cbn [fst snd] in *. destruct H as (H1 & H2 & H3 & H4 & H5 & H6).
@@ -126,23 +127,18 @@ Proof.
     apply post_single; auto; try lia; try (destruct F; lia).
   - (* erase(pos) *)
     pose proof (erase_one_spec tr i (wa w) (wl w) Ia ltac:(lia)) as H. cbv zeta in H.
-    destruct (erase_one i (wa w, wl w)) as [[v' L'] ret]. cbn [fst snd] in *. destruct H as (H1 & H2 & H3 & H4 & H5).
-    rewrite La. apply post_single; auto; try lia.
-    all: try (intros Hs _; exact (proj2 (H5 ltac:(lia)))).
-    all: try (intros Hs; exact (proj1 (H5 ltac:(lia)))).
+    destruct (erase_one i (wa w, wl w)) as [[v' L'] ret]. cbn [fst snd] in *. destruct H as (H1 & H2 & H3 & H4 & H5 & H6).
+    apply post_single; auto; try lia.
     all: try (size_of_abs H1 H2; rewrite zlen_app, zlen_firstn, zlen_skipn by lia; lia).
   - (* erase(first, last) *)
     pose proof (erase_range_spec tr i j (wa w) (wl w) Ia ltac:(lia) ltac:(lia)) as H. cbv zeta in H.
-    destruct (erase_range i j (wa w, wl w)) as [[v' L'] ret]. cbn [fst snd] in *. destruct H as (H1 & H2 & H3 & H4 & H5).
-    rewrite La. apply post_single; auto; try lia.
-    all: try (intros Hs _; exact (proj2 (H5 ltac:(lia)))).
-    all: try (intros Hs; exact (proj1 (H5 ltac:(lia)))).
+    destruct (erase_range i j (wa w, wl w)) as [[v' L'] ret]. cbn [fst snd] in *. destruct H as (H1 & H2 & H3 & H4 & H5 & H6).
+    apply post_single; auto; try lia.
     all: try (size_of_abs H1 H2; rewrite zlen_app, zlen_firstn, zlen_skipn by lia; lia).
   - (* insert(pos, value) *)
     pose proof (insert_one_spec tr max_n k i t (wa w) (wl w) F Ia ltac:(lia) ltac:(lia)) as H. cbv zeta in H.
-    destruct (insert_one tr k i t (wa w, wl w)) as [[v' L'] ret]. cbn [fst snd] in *. destruct H as (H1 & H2 & H3 & H4 & H5).
+    destruct (insert_one tr k i t (wa w, wl w)) as [[v' L'] ret]. cbn [fst snd] in *. destruct H as (H1 & H2 & H3 & H4 & H5 & H6).
     apply post_single; auto; try lia.
-    all: try (intros; discriminate).
     all: try (size_of_abs H1 H2; rewrite zlen_app, zlen_cons, zlen_firstn, zlen_skipn by lia; lia).
   - (* insert(pos, n, value) *)
     pose proof (insert_list_spec tr max_n i (zrepeat t n) (wa w) (wl w) F Ia ltac:(lia) ltac:(rewrite zlen_zrepeat by lia; lia)) as H. cbv zeta in H.
@@ -164,17 +160,17 @@ Proof.
     assert (A : abs v' = abs (wa w)).
     { apply abs_ext; [lia | lia |]. rewrite H3. intros j Hj. rewrite znth_abs by lia. unfold tag_at. rewrite H5. reflexivity. }
     apply post_single; auto; try lia.
-    intros _ _ [CA CB]. split; [|exists 0, 0; split; [apply ldelta_refl | lia]].
+    intros [CA CB]. split; [|exists 0, 0; split; [apply ldelta_refl | lia]].
     split; rewrite H3; intros j Hj; unfold live_at, st_at; rewrite H5; [apply CA | apply (CB j)]; exact Hj.
   - (* shrink_to_fit *)
     pose proof (shrink_to_fit_spec tr (wa w) (wl w) Ia) as H. cbv zeta in H.
     destruct (shrink_to_fit tr (wa w, wl w)) as [v' L']. cbn [fst snd] in *. destruct H as (H1 & H2 & H3 & H4 & H5 & H6).
     apply post_single; auto; try lia.
-    intros _ _ CV. destruct (H6 CV) as (EL & CV'). subst L'. split; [exact CV'|]. exists 0, 0. split; [apply ldelta_refl | lia].
+    intros CV. destruct (H6 CV) as (EL & CV'). subst L'. split; [exact CV'|]. exists 0, 0. split; [apply ldelta_refl | lia].
   - (* swap *)
     unfold post. cbn [wa wb wl fst snd].
     split; [exact Ib|]. split; [exact Ia|]. split; [reflexivity|]. split; [reflexivity|]. split; [exact Sb|]. split; [exact Sa|].
-    split; [reflexivity|]. intros Ca Cb _ _. split; [exact Cb|]. split; [exact Ca|].
+    split; [reflexivity|]. intros Ca Cb. split; [exact Cb|]. split; [exact Ca|].
     replace (v_size (wb w) + v_size (wa w) - v_size (wa w) - v_size (wb w)) with 0 by lia. apply lnet_refl.
   - (* copy assignment *)
     destruct (use_all_spec (wb w) (wl w)) as [UB UL].
@@ -183,7 +179,7 @@ Proof.
     unfold post. cbn [wa wb wl fst snd].
     assert (Sv : v_size v' = v_size (wb w)) by (size_of_abs H1 H2; lia).
     split; [exact H1|]. split; [exact Ib|]. split; [rewrite H2; reflexivity|]. split; [congruence|]. split; [lia|]. split; [lia|].
-    split; [reflexivity|]. intros Ca Cb _ _. rewrite UL in H5 by (intros j Hj; apply clean_live; assumption).
+    split; [reflexivity|]. intros Ca Cb. rewrite UL in H5 by (intros j Hj; apply clean_live; assumption).
     destruct (life_ok_lnet _ _ _ _ H5 Ca) as (C' & LN). split; [exact C'|]. split; [exact Cb|].
     replace (v_size v' + v_size (wb w) - v_size (wa w) - v_size (wb w)) with (v_size v' - v_size (wa w)) by lia. exact LN.
   - (* move assignment *)
@@ -191,7 +187,7 @@ Proof.
     destruct (clear (wa w, wl w)) as [s1 L1]. cbn [fst snd] in *. destruct H as (H1 & H2 & H3 & H4 & H5 & H6).
     rewrite !cvec_eta. unfold post. cbn [wa wb wl fst snd].
     split; [exact Ib|]. split; [exact H1|]. split; [rewrite H2; reflexivity|]. split; [exact H4|]. split; [lia|]. split; [lia|].
-    split; [reflexivity|]. intros Ca Cb _ _. destruct (life_ok_lnet _ _ _ _ H6 Ca) as (C' & LN).
+    split; [reflexivity|]. intros Ca Cb. destruct (life_ok_lnet _ _ _ _ H6 Ca) as (C' & LN).
     split; [exact Cb|]. split; [exact C'|].
     replace (v_size (wb w) + v_size s1 - v_size (wa w) - v_size (wb w)) with (v_size s1 - v_size (wa w)) by lia. exact LN.
   - (* self assignment *)
@@ -200,10 +196,10 @@ Proof.
     destruct (destruct_vec_spec tr (wa w) (wl w) Ia) as [DB DL]. set (L1 := destruct_vec tr (wa w, wl w)) in *.
     assert (Fin : forall v' L' l', vinv tr v' -> abs v' = l' -> cl_bad L' = cl_bad L1 -> v_size v' <= max_n -> clean v' ->
                   (clean (wa w) -> lnet L1 L' (v_size v')) ->
-                  post tr max_n w (mkW v' (wb w) L') (-1) (l', abs (wb w)) (-1) false false).
+                  post tr max_n w (mkW v' (wb w) L') (-1) (l', abs (wb w)) (-1)).
     { intros v' L' l' I' A' B' S' C' LN'. unfold post. cbn [wa wb wl].
       split; [exact I'|]. split; [exact Ib|]. split; [rewrite A'; reflexivity|]. split; [congruence|]. split; [exact S'|]. split; [exact Sb|].
-      split; [reflexivity|]. intros Ca Cb _ _. split; [exact C'|]. split; [exact Cb|].
+      split; [reflexivity|]. intros Ca Cb. split; [exact C'|]. split; [exact Cb|].
       replace (v_size v' + v_size (wb w) - v_size (wa w) - v_size (wb w)) with (- v_size (wa w) + v_size v') by lia.
       eapply lnet_trans; [apply DL; exact Ca | apply LN'; exact Ca]. }
     destruct c; cbn [spec_step fst snd].
@@ -232,14 +228,14 @@ Proof.
       assert (Sv : v_size v' = v_size (wb w)) by (size_of_abs C1 C2; exact Lb).
       unfold post. cbn [wa wb wl fst snd].
       split; [exact C1|]. split; [exact Ib|]. split; [rewrite C2; reflexivity|]. split; [congruence|]. split; [lia|]. split; [exact Sb|].
-      split; [reflexivity|]. intros Ca Cb _ _. split; [exact C4|]. split; [exact Cb|].
+      split; [reflexivity|]. intros Ca Cb. split; [exact C4|]. split; [exact Cb|].
       rewrite UL in C5 by (intros j Hj; apply clean_live; assumption).
       replace (v_size v' + v_size (wb w) - v_size (wa w) - v_size (wb w)) with (- v_size (wa w) + (zlen (abs (wb w)) - 0)) by lia.
       eapply lnet_trans; [apply DL; exact Ca | apply lnet_of_ldelta; exact C5].
     + pose proof (empty_vec_spec tr max_n (v_shift (wb w)) F ltac:(apply (vi_wf _ _ Ib))) as C. cbv zeta in C. destruct C as (C1 & C2 & C3).
       unfold post. cbn [wa wb wl fst snd].
       split; [exact Ib|]. split; [exact C1|]. split; [rewrite C2; reflexivity|]. split; [exact DB|]. split; [exact Sb|]. split; [cbn; destruct F; lia|].
-      split; [reflexivity|]. intros Ca Cb _ _. split; [exact Cb|]. split; [exact C3|]. cbn [v_size].
+      split; [reflexivity|]. intros Ca Cb. split; [exact Cb|]. split; [exact C3|]. cbn [v_size].
       replace (v_size (wb w) + 0 - v_size (wa w) - v_size (wb w)) with (- v_size (wa w)) by lia. apply DL. exact Ca.
   - (* iteration *)
     apply post_same; assumption.
@@ -247,8 +243,8 @@ Proof.
     unfold post. cbn [wa wb wl fst snd].
     split; [exact Ia|]. split; [exact Ib|]. split; [reflexivity|].
     split; [unfold c_use; destruct (c_st (get_cell (wa w) i)); reflexivity|]. split; [exact Sa|]. split; [exact Sb|].
-    split; [intros _; change (nth (Z.to_nat i) (abs (wa w)) 0) with (znth (abs (wa w)) i); rewrite znth_abs by lia; reflexivity|].
-    intros Ca Cb _ _. split; [exact Ca|]. split; [exact Cb|].
+    split; [change (nth (Z.to_nat i) (abs (wa w)) 0) with (znth (abs (wa w)) i); rewrite znth_abs by lia; reflexivity|].
+    intros Ca Cb. split; [exact Ca|]. split; [exact Cb|].
     replace (v_size (wa w) + v_size (wb w) - v_size (wa w) - v_size (wb w)) with 0 by lia.
     pose proof (clean_live _ i Ca ltac:(lia)) as X. unfold live_at, st_at in X. unfold c_use.
     destruct (c_st (get_cell (wa w) i)); try discriminate; apply lnet_refl.
@@ -263,12 +259,12 @@ Proof.
 Qed.
 
 (* ------------------------------------------------------------------------------------------------ either selector *)
-Lemma post_swap tr max_n w w' ret x y sret sh ins :
-  post tr max_n (wswap w) w' ret (x, y) sret sh ins -> post tr max_n w (wswap w') ret (y, x) sret sh ins.
+Lemma post_swap tr max_n w w' ret x y sret :
+  post tr max_n (wswap w) w' ret (x, y) sret -> post tr max_n w (wswap w') ret (y, x) sret.
 Proof.
   unfold post, wswap. cbn [wa wb wl]. intros (A & B & C & D & E & G & H & K).
   split; [exact B|]. split; [exact A|]. split; [inversion C; reflexivity|]. split; [exact D|]. split; [exact G|]. split; [exact E|].
-  split; [exact H|]. intros Ca Cb Hs Hi. destruct (K Cb Ca Hs Hi) as (K1 & K2 & K3).
+  split; [exact H|]. intros Ca Cb. destruct (K Cb Ca) as (K1 & K2 & K3).
   split; [exact K2|]. split; [exact K1|].
   replace (v_size (wb w') + v_size (wa w') - v_size (wa w) - v_size (wb w)) with (v_size (wa w') + v_size (wb w') - v_size (wb w) - v_size (wa w)) by lia.
   exact K3.
@@ -294,23 +290,20 @@ Definition wabs (w : world) : list Z * list Z := (abs (wa w), abs (wb w)).
 
 Lemma run_ok tr max_n : fits tr max_n -> forall ops w,
   winv tr max_n w -> seq_scan (op_pre max_n) (wabs w) ops = true ->
-  (* contents and sizes after every operation are those of std::vector; storage accesses stay inside allocations *)
-  contents_of (model_trace tr w ops) = contents_of (spec_trace (wabs w) ops) /\
+  (* contents, sizes and returned positions after every operation are those of std::vector *)
+  model_trace tr w ops = spec_trace (wabs w) ops /\
   winv tr max_n (run tr w ops) /\ wabs (run tr w ops) = spec_run (wabs w) ops /\
+  (* storage accesses stay inside allocations *)
   cl_bad (wl (run tr w ops)) = cl_bad (wl w) /\
-  (* returned positions as well, unless an erase has to shift a tail *)
-  (seq_scan (fun self _ o => negb (op_erase_shifts self o)) (wabs w) ops = true ->
-   model_trace tr w ops = spec_trace (wabs w) ops) /\
-  (* balanced lifetimes outside the two defect domains *)
-  (wclean w -> seq_scan (fun self _ o => negb (op_erase_shifts self o)) (wabs w) ops = true ->
-   seq_scan (fun _ _ o => negb (op_insert_single o)) (wabs w) ops = true ->
+  (* balanced lifetimes *)
+  (wclean w ->
    wclean (run tr w ops) /\
    lnet (wl w) (wl (run tr w ops))
      (v_size (wa (run tr w ops)) + v_size (wb (run tr w ops)) - v_size (wa w) - v_size (wb w))).
 Proof.
   intros F. induction ops as [|[sel o] r IH]; intros w (Ia & Ib & Sa & Sb) Pre.
   - cbn. split; [reflexivity|]. split; [exact (conj Ia (conj Ib (conj Sa Sb)))|]. split; [reflexivity|]. split; [reflexivity|].
-    split; [reflexivity|]. intros C _ _. split; [exact C|].
+    intros C. split; [exact C|].
     replace (v_size (wa w) + v_size (wb w) - v_size (wa w) - v_size (wb w)) with 0 by lia. apply lnet_refl.
   - cbn [seq_scan] in Pre. apply andb_prop in Pre. destruct Pre as [Pre1 PreR].
     unfold wabs in Pre1, PreR. cbn [fst snd] in Pre1.
@@ -320,21 +313,16 @@ Proof.
     destruct (step tr w sel o) as [w' ret] eqn:ES. unfold wabs. destruct (spec_step (abs (wa w), abs (wb w)) sel o) as [s' sret] eqn:ESS.
     cbn [fst snd] in *. destruct SP as (Ia' & Ib' & EA & EB & Sa' & Sb' & ER & LF).
     specialize (IH w' (conj Ia' (conj Ib' (conj Sa' Sb')))). unfold wabs in IH. rewrite EA in IH. specialize (IH PreR).
-    destruct IH as (T1 & T2 & T3 & T4 & T5 & T6).
-    split. { unfold contents_of in *. cbn [map fst]. rewrite T1. f_equal. rewrite <- EA. reflexivity. }
+    destruct IH as (T1 & T2 & T3 & T4 & T6).
+    split. { rewrite T1, ER, <- EA. reflexivity. }
     split; [exact T2|]. split; [exact T3|]. split; [congruence|].
-    split.
-    + intros NS. apply andb_prop in NS. destruct NS as [NS1 NSR]. cbn [fst snd] in NS1.
-      rewrite (T5 NSR). rewrite ER by (destruct sel; apply negb_true_iff in NS1; exact NS1). rewrite <- EA. reflexivity.
-    + intros [Ca Cb] NS NI. apply andb_prop in NS. destruct NS as [NS1 NSR]. apply andb_prop in NI. destruct NI as [NI1 NIR].
-      cbn [fst snd] in NS1.
-      destruct (LF Ca Cb ltac:(destruct sel; apply negb_true_iff in NS1; exact NS1) ltac:(apply negb_true_iff in NI1; exact NI1)) as (Ca' & Cb' & LN).
-      destruct (T6 (conj Ca' Cb') NSR NIR) as (CF & LNF). split; [exact CF|].
-      eapply (lnet_trans _ _ _ _ _ LN) in LNF.
-      replace (v_size (wa (run tr w' r)) + v_size (wb (run tr w' r)) - v_size (wa w) - v_size (wb w))
-        with (v_size (wa w') + v_size (wb w') - v_size (wa w) - v_size (wb w) +
-              (v_size (wa (run tr w' r)) + v_size (wb (run tr w' r)) - v_size (wa w') - v_size (wb w'))) by lia.
-      exact LNF.
+    intros [Ca Cb]. destruct (LF Ca Cb) as (Ca' & Cb' & LN).
+    destruct (T6 (conj Ca' Cb')) as (CF & LNF). split; [exact CF|].
+    eapply (lnet_trans _ _ _ _ _ LN) in LNF.
+    replace (v_size (wa (run tr w' r)) + v_size (wb (run tr w' r)) - v_size (wa w) - v_size (wb w))
+      with (v_size (wa w') + v_size (wb w') - v_size (wa w) - v_size (wb w) +
+            (v_size (wa (run tr w' r)) + v_size (wb (run tr w' r)) - v_size (wa w') - v_size (wb w'))) by lia.
+    exact LNF.
 Qed.
 
 Lemma world0_ok tr max_n : fits tr max_n -> winv tr max_n (world0 tr) /\ wabs (world0 tr) = ([], []) /\ wclean (world0 tr) /\
@@ -347,25 +335,20 @@ Qed.
 
 (* refinement of std::vector by every operation sequence within the preconditions *)
 Theorem cvec_refines_vector_proof tr max_n ops : fits tr max_n -> seq_pre max_n ops = true ->
-  contents_of (model_trace tr (world0 tr) ops) = contents_of (spec_trace ([], []) ops) /\
-  cl_bad (wl (run tr (world0 tr) ops)) = 0 /\
-  (seq_no_erase_shift ops = true -> model_trace tr (world0 tr) ops = spec_trace ([], []) ops).
+  model_trace tr (world0 tr) ops = spec_trace ([], []) ops /\ cl_bad (wl (run tr (world0 tr) ops)) = 0.
 Proof.
   intros F Pre. destruct (world0_ok tr max_n F) as (W & A & C & _). unfold seq_pre in Pre. rewrite <- A in Pre.
-  destruct (run_ok tr max_n F ops (world0 tr) W Pre) as (T1 & _ & _ & T4 & T5 & _).
-  rewrite A in *. split; [exact T1|]. split; [rewrite T4; reflexivity|]. exact T5.
+  destruct (run_ok tr max_n F ops (world0 tr) W Pre) as (T1 & _ & _ & T4 & _).
+  rewrite A in *. split; [exact T1|]. rewrite T4. reflexivity.
 Qed.
 
-(* every constructed element is destroyed exactly once: for all sequences without a shifting erase and without a
-   single-element insert, followed by the destruction of both vectors *)
-Theorem cvec_lifetime_balanced_proof tr max_n ops : fits tr max_n -> seq_pre max_n ops = true -> seq_life_domain ops = true ->
+(* every constructed element is destroyed exactly once: for all sequences, followed by the destruction of both vectors *)
+Theorem cvec_lifetime_balanced_proof tr max_n ops : fits tr max_n -> seq_pre max_n ops = true ->
   life_balanced (run_all tr ops).
 Proof.
-  intros F Pre Dom. destruct (world0_ok tr max_n F) as (W & A & C & Z1 & Z2). unfold seq_pre in Pre. rewrite <- A in Pre.
-  unfold seq_life_domain in Dom. apply andb_prop in Dom. destruct Dom as [D1 D2]. unfold seq_no_erase_shift in D1. unfold seq_no_insert_single in D2.
-  rewrite <- A in D1, D2.
-  destruct (run_ok tr max_n F ops (world0 tr) W Pre) as (_ & (Ia & Ib & _ & _) & _ & _ & _ & T6).
-  destruct (T6 C D1 D2) as ([Ca Cb] & LN). unfold run_all, finish.
+  intros F Pre. destruct (world0_ok tr max_n F) as (W & A & C & Z1 & Z2). unfold seq_pre in Pre. rewrite <- A in Pre.
+  destruct (run_ok tr max_n F ops (world0 tr) W Pre) as (_ & (Ia & Ib & _ & _) & _ & _ & T6).
+  destruct (T6 C) as ([Ca Cb] & LN). unfold run_all, finish.
   set (w := run tr (world0 tr) ops) in *.
   destruct (destruct_vec_spec tr (wa w) (wl w) Ia) as [_ DA]. specialize (DA Ca).
   destruct (destruct_vec_spec tr (wb w) (destruct_vec tr (wa w, wl w)) Ib) as [_ DB]. specialize (DB Cb).
@@ -375,7 +358,18 @@ Proof.
   split; [exact E1|]. split; [exact E2|]. split; [exact E3|]. split; [exact E4|]. lia.
 Qed.
 
-(* ------------------------------------------------------------------------------------------------ refutations *)
+(* C32 as stated: all sequences, returned positions and lifetimes included *)
+Definition full_statement : Prop :=
+  forall tr max_n ops, fits tr max_n -> seq_pre max_n ops = true ->
+    model_trace tr (world0 tr) ops = spec_trace ([], []) ops /\ life_balanced (run_all tr ops).
+
+Theorem full_statement_holds : full_statement.
+Proof.
+  intros tr max_n ops F P.
+  exact (conj (proj1 (cvec_refines_vector_proof tr max_n ops F P)) (cvec_lifetime_balanced_proof tr max_n ops F P)).
+Qed.
+
+(* ------------------------------------------------------------------------------------------------ regression examples *)
 Lemma life_balancedb_iff L : life_balanced L <-> life_balancedb L = true.
 Proof.
   unfold life_balanced, life_balancedb. split.
@@ -393,55 +387,37 @@ Definition ops_insert : list (bool * op) :=
 Lemma fits_small : fits tr_small 1000.
 Proof. unfold fits, tr_small, max_buffers. cbn. repeat split; try lia; discriminate. Qed.
 
-(* three emplace_back, erase(begin()), both vectors destroyed: 3 constructions, 2 destructor calls, the moved-from
-   tail element is lost with its storage; contents [2;3] are right, the returned position (2 = new end) is not (0) *)
-Lemma refuted_erase :
-  fits tr_small 1000 /\ seq_pre 1000 ops_erase = true /\
-  contents_of (model_trace tr_small (world0 tr_small) ops_erase) = contents_of (spec_trace ([], []) ops_erase) /\
-  model_trace tr_small (world0 tr_small) ops_erase <> spec_trace ([], []) ops_erase /\
-  ~ life_balanced (run_all tr_small ops_erase) /\
-  final_obs (run_all tr_small ops_erase) = [3; 0; 0; 0; 2; 2; 1; 1; 0; 0; 0; 0; 0].
-Proof.
-  split; [exact fits_small|]. split; [vm_compute; reflexivity|]. split; [vm_compute; reflexivity|].
-  split; [vm_compute; discriminate|]. split; [|vm_compute; reflexivity].
-  rewrite life_balancedb_iff. vm_compute. discriminate.
-Qed.
+(* the former refutation witnesses (before 6742701: 3 constructions / 2 destructions and returned position 2;
+   6 / 4; before c8c0b30: 5 / 4 and one ConstructOverLive), now computed on the repaired model *)
+Lemma regression_erase :
+  seq_pre 1000 ops_erase = true /\
+  model_trace tr_small (world0 tr_small) ops_erase = [([1], [], 0); ([1; 2], [], 1); ([1; 2; 3], [], 2); ([2; 3], [], 0)] /\
+  life_balancedb (run_all tr_small ops_erase) = true /\
+  final_obs (run_all tr_small ops_erase) = [3; 0; 0; 0; 2; 3; 0; 0; 0; 0; 0; 0; 0].
+Proof. repeat split; vm_compute; reflexivity. Qed.
 
-Lemma refuted_erase_range :
-  seq_pre 1000 ops_erase_range = true /\ ~ life_balanced (run_all tr_small ops_erase_range) /\
-  final_obs (run_all tr_small ops_erase_range) = [6; 0; 0; 0; 3; 4; 2; 2; 0; 0; 0; 0; 0].
-Proof.
-  split; [vm_compute; reflexivity|]. split; [|vm_compute; reflexivity].
-  rewrite life_balancedb_iff. vm_compute. discriminate.
-Qed.
+Lemma regression_erase_range :
+  seq_pre 1000 ops_erase_range = true /\
+  model_trace tr_small (world0 tr_small) ops_erase_range = [([10; 11; 12; 13; 14; 15], [], 0); ([10; 13; 14; 15], [], 1)] /\
+  life_balancedb (run_all tr_small ops_erase_range) = true /\
+  final_obs (run_all tr_small ops_erase_range) = [6; 0; 0; 0; 3; 6; 0; 0; 0; 0; 0; 0; 0].
+Proof. repeat split; vm_compute; reflexivity. Qed.
 
-(* three emplace_back, insert(begin()+1, value): the placement new runs over the moved-from element *)
-Lemma refuted_insert :
-  seq_pre 1000 ops_insert = true /\ model_trace tr_small (world0 tr_small) ops_insert = spec_trace ([], []) ops_insert /\
-  ~ life_balanced (run_all tr_small ops_insert) /\
-  final_obs (run_all tr_small ops_insert) = [4; 1; 0; 0; 2; 4; 0; 0; 1; 0; 0; 0; 0].
-Proof.
-  split; [vm_compute; reflexivity|]. split; [vm_compute; reflexivity|]. split; [|vm_compute; reflexivity].
-  rewrite life_balancedb_iff. vm_compute. discriminate.
-Qed.
+Lemma regression_insert :
+  seq_pre 1000 ops_insert = true /\
+  model_trace tr_small (world0 tr_small) ops_insert = [([1], [], 0); ([1; 2], [], 1); ([1; 2; 3], [], 2); ([1; 9; 2; 3], [], 1)] /\
+  life_balancedb (run_all tr_small ops_insert) = true /\
+  final_obs (run_all tr_small ops_insert) = [4; 0; 0; 1; 2; 4; 0; 0; 0; 0; 0; 0; 0].
+Proof. repeat split; vm_compute; reflexivity. Qed.
 
-(* C32 as stated (all sequences, returned positions and lifetimes included) *)
-Definition full_statement : Prop :=
-  forall tr max_n ops, fits tr max_n -> seq_pre max_n ops = true ->
-    model_trace tr (world0 tr) ops = spec_trace ([], []) ops /\ life_balanced (run_all tr ops).
-
-Lemma full_statement_false : ~ full_statement.
-Proof.
-  intros H. destruct refuted_erase as (F & P & _ & _ & NB & _). destruct (H tr_small 1000 ops_erase F P) as [_ B]. exact (NB B).
-Qed.
-
-(* a sequence inside both domains that crosses several bucket boundaries, with copy / move / swap *)
+(* a sequence that crosses several bucket boundaries on both vectors, with shifting erases, single inserts,
+   copy / move / swap *)
 Definition ops_nonvacuous : list (bool * op) :=
-  [(false, OGrowByGen 5 1); (false, OPush KCopy 6); (false, OInsertN 2 3 7); (true, ORecreate CCopy); (false, OEraseRange 6 9);
-   (false, OPop); (true, OSwap); (false, OResizeVal 12 8); (true, OMoveAssign); (false, OShrink); (true, OAssignN 3 9); (true, OErase 2);
-   (false, OGrowBy 2); (true, OPush KMove 4)].
+  [(false, OGrowByGen 5 1); (false, OPush KCopy 6); (false, OInsertN 2 3 7); (true, ORecreate CCopy); (false, OEraseRange 2 5);
+   (false, OErase 0); (true, OSwap); (false, OResizeVal 12 8); (false, OInsert KMove 3 5); (true, OMoveAssign); (false, OShrink);
+   (true, OAssignN 3 9); (true, OErase 2); (false, OGrowBy 2); (true, OPush KMove 4)].
 Lemma nonvacuous :
-  fits tr_small 1000 /\ seq_pre 1000 ops_nonvacuous = true /\ seq_life_domain ops_nonvacuous = true /\
+  fits tr_small 1000 /\ seq_pre 1000 ops_nonvacuous = true /\
   spec_run ([], []) ops_nonvacuous = ([0; 0], [9; 9; 4]) /\
-  final_obs (run_all tr_small ops_nonvacuous) = [10; 16; 1; 3; 4; 27; 0; 0; 0; 0; 0; 0; 0].
+  final_obs (run_all tr_small ops_nonvacuous) = [11; 16; 1; 3; 23; 28; 0; 0; 0; 0; 0; 0; 0].
 Proof. split; [exact fits_small|]. repeat split; vm_compute; reflexivity. Qed.
